@@ -420,11 +420,11 @@ Section Tree.
     cs_types (remember_owner cr o s) = cs_types s /\ cs_cache (remember_owner cr o s) = cs_cache s.
   Proof. unfold remember_owner. destruct (nassoc cr (cs_owners s)); split; reflexivity. Qed.
 
-  Lemma use_or_own_frame hf ow name rf cr s s' :
-    use_or_own hf g ow name rf cr s = COk s' -> agree [] (cs_types s) (cs_types s') /\ cs_cache s' = cs_cache s.
+  Lemma use_or_own_frame hf vn ow name rf cr s s' :
+    use_or_own hf g vn ow name rf cr s = COk s' -> agree [] (cs_types s) (cs_types s') /\ cs_cache s' = cs_cache s.
   Proof.
     unfold use_or_own. destruct (find_owner hf g (cs_owners s) rf) as [[[other orig]|]|]; [| |discriminate].
-    - intro H. inv_bind H as s1 H1. injection H as <-.
+    - intro H. inv_bind H as s1 H1. injection H as <-. cbn [log_site cs_types cs_cache].
       destruct (remember_owner_frame cr (other, orig) s1) as [-> ->].
       destruct other as [i|w]; [|injection H1 as <-; split; [apply agree_refl | reflexivity]].
       destruct (owner_eqb ow (OwIface i)); [injection H1 as <-; split; [apply agree_refl | reflexivity]|].
